@@ -49,7 +49,7 @@ def run(sc, keep_sim=False, hold=None):
                 else:
                     st.subscribe(cb, sub.get('filt'))
             for ci, cd in enumerate(sd.get('cas', [])):
-                st.add_ca(cd['name'], cd.get('addr'), cd.get('bypass', False), cd.get('accept_all', False))
+                st.add_ca(cd['name'], cd.get('addr'), cd.get('bypass', False), cd.get('accept_all', False), cd.get('own_hook', False))
                 for cid in cd.get('subs', []):
                     st.ca_subscribe(ci, st.cb(cid, 'sub'))
                 for cid in cd.get('req', []):
